@@ -1,47 +1,48 @@
 /-
   C15 — the path-expression parser accepts exactly the documented grammar.
-  Property theorems only (helper lemmas: `Lemmas/PathParser.lean`).  Strings of any length.
+  Property theorems only (helper lemmas: `Lemmas/Path*.lean`; `Path.Canonical`: `Spec/PathCanonical.lean`).  Strings of any length.
 -/
 import BufrModel.Lang.PathParser
 import BufrModel.Spec.PathGrammar
-import BufrModel.Lemmas.PathParser
+import BufrModel.Spec.PathCanonical
+import BufrModel.Lemmas.PathTop
+import BufrModel.Lemmas.PathCanonical
+import BufrModel.Lemmas.PathPrint
 namespace Bufr.PathLang
-
-/-- A path as the grammar can produce it. -/
-def Slice.Canonical : Slice → Prop
-  | .idx i => 0 ≤ i
-  | .range _ _ _ => True
-
-def idOk (i : List Char) : Prop := i ≠ [] ∧ ∀ c ∈ i, Spec.isSpecial c = false ∧ isWs c = false
-
-def Path.Canonical (p : Path) : Prop :=
-  (∃ s, p.subset = some s ∧ s.Canonical) ∧ p.comps ≠ [] ∧
-  (∀ c ∈ p.comps, isSep c.sep = true ∧ idOk c.id ∧ c.slice.Canonical) ∧
-  (∀ c, p.comps.head? = some c → c.sep ≠ '.')
 
 /-- The state machine accepts a string, with result `p`, exactly when the grammar derives it with
     the same components and slices: nothing is accepted that the grammar rejects, nothing the grammar
     accepts is rejected, and no part of an accepted string is dropped. -/
 theorem C15_parse_iff_grammar (s : List Char) (p : Path) :
     parse s = .ok p ↔ Spec.recognise s = some p := by
-  sorry
+  have h := parse_agree s
+  unfold AgreeTop at h
+  cases hr : Spec.recognise s with
+  | none => rw [hr] at h; simp [h]
+  | some q => rw [hr] at h; simp [h]
 
 /-- Every rejection is the path-parsing error (the `assert` in `create_slice_object` is unreachable). -/
 theorem C15_reject_is_path_error (s : List Char) (e : Err) : parse s = .error e → e = .path := by
-  sorry
+  intro he
+  have h := parse_agree s
+  unfold AgreeTop at h
+  cases hr : Spec.recognise s with
+  | none => rw [hr, he] at h; injection h
+  | some q => rw [hr, he] at h; cases h
 
 /-- Accepted strings yield canonical paths ... -/
 theorem C15_parse_canonical (s : List Char) (p : Path) : parse s = .ok p → p.Canonical := by
-  sorry
+  intro h
+  exact recognise_canonical s p ((C15_parse_iff_grammar s p).1 h)
 
 /-- ... printing a canonical path and parsing the printout gives the same path ... -/
-theorem C15_print_parse (p : Path) (h : p.Canonical) : parse (print p) = .ok p := by
-  sorry
+theorem C15_print_parse (p : Path) (h : p.Canonical) : parse (print p) = .ok p :=
+  (C15_parse_iff_grammar (print p) p).2 (recognise_print p h)
 
 /-- ... hence parse ∘ print ∘ parse = parse. -/
 theorem C15_parse_print_parse (s : List Char) (p : Path) (h : parse s = .ok p) :
-    parse (print p) = .ok p := by
-  sorry
+    parse (print p) = .ok p :=
+  C15_print_parse p (C15_parse_canonical s p h)
 
 /-- non-vacuity: the documented examples are accepted with the expected structure -/
 example : parse "@[-1]/301001/001002[::2]".toList = .ok
@@ -51,6 +52,16 @@ example : parse "@[-1]/301001/001002[::2]".toList = .ok
 example : parse " 008042 ".toList = .ok
     { subset := some (.range none none none), comps := [⟨'>', "008042".toList, .range none none none⟩] } := by
   decide
+/-- non-vacuity of the hypothesis of `C15_print_parse`: a canonical path -/
+example : Path.Canonical
+    { subset := some (.idx 0),
+      comps := [⟨'/', "301001".toList, .range none none none⟩, ⟨'.', "A01".toList, .range (some (-2)) (some (-1)) none⟩] } := by
+  refine ⟨⟨_, rfl, ?_⟩, by simp, ?_, ?_⟩
+  · show (0 : Int) ≤ 0; decide
+  · intro c hc
+    simp only [List.mem_cons, List.not_mem_nil, or_false] at hc
+    rcases hc with hc | hc <;> subst hc <;> exact ⟨by decide, ⟨by decide, by decide⟩, trivial⟩
+  · intro c hc; simp at hc; subst hc; decide
 example : parse "@[0]".toList = .error .path := by decide
 example : parse "001001[1:".toList = .error .path := by decide
 
